@@ -308,6 +308,70 @@ void h_memmove(Toks& in, Out& o, F f)
     check_guards(o, x);
 }
 
+// ---- two DIFFERENT allocations inside one heap block (memmove between unrelated objects):  <dst> <src> n <dst_first>
+// layout [guard][first][guard][second][guard]; dst_first = 1 puts the destination at the lower address (so the
+// library's `ps < pd` is false and it copies forwards), 0 at the higher one (backwards).  Both must give memcpy's result.
+template <typename C, typename F>
+void h_memmove2(Toks& in, Out& o, F f)
+{
+    auto d        = in.list();
+    auto s        = in.list();
+    auto n        = static_cast<std::size_t>(in.unum());
+    bool dstFirst = in.unum() != 0;
+    auto const& a = dstFirst ? d : s;
+    auto const& b = dstFirst ? s : d;
+    std::size_t const na = a.size() * sizeof(C);
+    std::size_t const nb = b.size() * sizeof(C);
+    std::size_t const total = 3 * GUARD + na + nb;
+    auto* block = static_cast<unsigned char*>(std::malloc(total));
+    std::memset(block, PATTERN, total);
+    auto* pa = reinterpret_cast<C*>(block + GUARD);
+    auto* pb = reinterpret_cast<C*>(block + 2 * GUARD + na);
+    for (std::size_t i = 0; i < a.size(); ++i) { pa[i] = from_wire<C>(a[i]); }
+    for (std::size_t i = 0; i < b.size(); ++i) { pb[i] = from_wire<C>(b[i]); }
+    C18_POISON(block, GUARD);
+    C18_POISON(block + GUARD + na, GUARD);
+    C18_POISON(block + 2 * GUARD + na + nb, GUARD);
+    C* pd       = dstFirst ? pa : pb;
+    C const* ps = dstFirst ? pb : pa;
+    auto* r     = f(pd, ps, n);
+    C18_UNPOISON(block, total);
+    o.tok("ok").num(off<C>(pd, r));
+    o.num(static_cast<i64>(d.size()));
+    for (std::size_t i = 0; i < d.size(); ++i) { o.num(to_wire<C>(pd[i])); }
+    bool ok = true;
+    for (std::size_t i = 0; i < GUARD; ++i) {
+        if (block[i] != PATTERN || block[GUARD + na + i] != PATTERN || block[2 * GUARD + na + nb + i] != PATTERN) { ok = false; }
+    }
+    for (std::size_t i = 0; i < s.size(); ++i) {
+        if (to_wire<C>(ps[i]) != to_wire<C>(from_wire<C>(s[i]))) { ok = false; } // the source must not change
+    }
+    if (!ok) { o.tok("guard-touched"); }
+    std::free(block);
+}
+
+// ---- null-pointer arguments of the front ends:  <which>   (1 = destination null, 2 = source null, 3 = both)
+// impl leg: the call under the contract handler; the non-null argument is a small valid buffer.
+// reference leg: what the header documents (TETL_PRECONDITION(ptr != nullptr)) -> "contract"; C itself: undefined.
+template <typename C>
+C* volatile g_null = nullptr; // volatile: the compiler must not fold the null pointer into the call
+
+template <typename C, typename F>
+void h_nullargs(Toks& in, Out& o, F f)
+{
+    auto w = in.unum();
+    std::vector<i64> dv{201, 202, 203};
+    std::vector<i64> sv{97, 0};
+    Buf<C> x(dv);
+    Buf<C> y(sv);
+    C* d       = (w & 1U) != 0 ? g_null<C> : x.p;
+    C const* s = (w & 2U) != 0 ? g_null<C> : y.p;
+    auto* r    = f(d, s);
+    o.tok("ok").num(off<C>(x.p, r));
+    x.dump(o);
+    check_guards(o, x, y);
+}
+
 template <typename F>
 void h_class(Toks& in, Out& o, F f)
 {
@@ -588,6 +652,69 @@ static bool dispatch(std::string const& op, Toks& in, Out& impl, Out& ref)
     if (op == "memmove") {
         BOTH((h_memmove<char>), [](mc d, cc s, std::size_t n) { return static_cast<mc>(etl::memmove(d, s, n)); },
             [](mc d, cc s, std::size_t n) { return static_cast<mc>(std::memmove(d, s, n)); });
+    }
+    // ------------------------------------------------------------------ review round: paths of the front ends
+    if (op == "memmove2") {
+        BOTH((h_memmove2<char>), [](mc d, cc s, std::size_t n) { return static_cast<mc>(etl::memmove(d, s, n)); },
+            [](mc d, cc s, std::size_t n) { return static_cast<mc>(std::memmove(d, s, n)); });
+    }
+    if (op == "wmemmove2") {
+        BOTH((h_memmove2<wchar_t>), [](wmc d, wcc s, std::size_t n) { return etl::wmemmove(d, s, n); },
+            [](wmc d, wcc s, std::size_t n) { return std::wmemmove(d, s, n); });
+    }
+    if (op == "strcpy_null") {
+        guarded(impl, [&](Out& o) { h_nullargs<char>(in, o, [](mc d, cc s) { return etl::strcpy(d, s); }); });
+        ref.tok("contract");
+        return true;
+    }
+    if (op == "wcscpy_null") {
+        guarded(impl, [&](Out& o) { h_nullargs<wchar_t>(in, o, [](wmc d, wcc s) { return etl::wcscpy(d, s); }); });
+        ref.tok("contract");
+        return true;
+    }
+    if (op == "strncpy_null") {
+        guarded(impl, [&](Out& o) { h_nullargs<char>(in, o, [](mc d, cc s) { return etl::strncpy(d, s, 1); }); });
+        ref.tok("contract");
+        return true;
+    }
+    if (op == "wcsncpy_null") {
+        guarded(impl, [&](Out& o) { h_nullargs<wchar_t>(in, o, [](wmc d, wcc s) { return etl::wcsncpy(d, s, 1); }); });
+        ref.tok("contract");
+        return true;
+    }
+    if (op == "memmove_null") {
+        guarded(impl, [&](Out& o) { h_nullargs<char>(in, o, [](mc d, cc s) { return static_cast<mc>(etl::memmove(d, s, 1)); }); });
+        ref.tok("contract");
+        return true;
+    }
+    if (op == "strchr_null") {
+        // both overloads; <ch>
+        auto ch = static_cast<int>(in.num());
+        guarded(impl, [&](Out& o) {
+            char* r1       = etl::strchr(g_null<char>, ch);
+            char const* r2 = etl::strchr(static_cast<char const*>(g_null<char>), ch);
+            o.tok("ok").num(r1 == nullptr && r2 == nullptr ? -1 : 0);
+        });
+        ref.tok("contract");
+        return true;
+    }
+    if (op == "strrchr_null" || op == "wcsrchr_null") {
+        // detail::strrchr's extension: a null string gives a null result (all four overloads); C: undefined
+        auto ch = static_cast<int>(in.num());
+        guarded(impl, [&](Out& o) {
+            bool allNull = false;
+            if (op == "strrchr_null") {
+                allNull = etl::strrchr(g_null<char>, ch) == nullptr && etl::strrchr(static_cast<char const*>(g_null<char>), ch) == nullptr;
+            } else {
+                allNull = etl::wcsrchr(g_null<wchar_t>, ch) == nullptr
+                       && etl::wcsrchr(static_cast<wchar_t const*>(g_null<wchar_t>), ch) == nullptr;
+            }
+            o.tok("ok").num(allNull ? -1 : 0);
+        });
+        // reference: the library's own documented/tested extension (tests/cstring/cstring.str.t.cpp pins
+        // strrchr(nullptr, c) == nullptr; wcsrchr runs the same template)
+        ref.tok("ok").num(-1);
+        return true;
     }
     // ------------------------------------------------------------------ wide strings
     if (op == "wcslen") { BOTH((h_len<wchar_t>), [](wcc s) { return etl::wcslen(s); }, [](wcc s) { return std::wcslen(s); }); }
